@@ -545,6 +545,36 @@ func (g *gen) docCase(kind string) hx.Case {
 	}
 	domain := true
 	tags := []string{"doc"}
+	if kind == "root-switch" {
+		// every branch of the root is a map; only the selected branch (or `default`) may be evaluated
+		nb := 1 + g.r.Intn(3)
+		p := g.r.Perm(len(dimNames))
+		root = &node{kind: 'W'}
+		hasSel := false
+		for i := 0; i < nb; i++ {
+			root.keys = append(root.keys, fmt.Sprintf("B%d", p[i]))
+			hasSel = hasSel || p[i] == sel
+		}
+		if g.r.Intn(10) < 7 {
+			root.keys = append(root.keys, "D")
+		}
+		g.r.Shuffle(len(root.keys), func(i, j int) { root.keys[i], root.keys[j] = root.keys[j], root.keys[i] })
+		for _, key := range root.keys {
+			selected := key == fmt.Sprintf("B%d", sel) || (key == "D" && !hasSel)
+			saved := dg.unselVars
+			if !selected {
+				dg.unselVars = true
+			}
+			m := 1 + g.r.Intn(3)
+			b := &node{kind: 'M', keys: dg.keys(m)}
+			for i := 0; i < m; i++ {
+				b.kids = append(b.kids, dg.value(2, false, false, sel))
+			}
+			root.kids = append(root.kids, b)
+			dg.unselVars = saved
+		}
+		tags = append(tags, "root-switch")
+	}
 	switch kind {
 	case "nested-switch":
 		domain = false
@@ -577,7 +607,10 @@ func (g *gen) docCase(kind string) hx.Case {
 			lines = append(lines, "tmpl env "+tokS(v)+" set S")
 		}
 	}
-	lines = append(lines, fmt.Sprintf("tmpl load %d %s", sel, root.String()), "tmpl dump")
+	lines = append(lines, fmt.Sprintf("tmpl load %d %s", sel, root.String()))
+	if root.kind == 'M' {
+		lines = append(lines, "tmpl dump")
+	}
 	var paths []string
 	root.selectedPaths(sel, "", &paths)
 	g.r.Shuffle(len(paths), func(i, j int) { paths[i], paths[j] = paths[j], paths[i] })
@@ -587,7 +620,11 @@ func (g *gen) docCase(kind string) hx.Case {
 	for _, p := range paths {
 		lines = append(lines, "tmpl get "+p)
 	}
-	lines = append(lines, "tmpl get "+root.keys[0]+".nope")
+	if root.kind == 'M' {
+		lines = append(lines, "tmpl get "+root.keys[0]+".nope")
+	} else {
+		lines = append(lines, "tmpl get nope.nope")
+	}
 	// YAML is not modelled: the document must survive yaml.v3 into FromBytes, and so must every
 	// subtree on its own (Get re-marshals the value it returns).
 	if sel0 := root.selected(sel); !root.allRoundTrip() || (sel0 != nil && !sel0.allRoundTrip()) {
